@@ -215,7 +215,7 @@ def finish(prop, tier, seed, repo, hs, results, extra, wall, args):
             seen_ob.add(v["obligation"])
             uniq.append(v)
     violations = uniq
-    for k in {(k["id"], json.dumps(k.get("region"), sort_keys=True)): k for k in fired}.values():
+    for k in {(k["id"], k["obligation"], json.dumps(k.get("region"), sort_keys=True)): k for k in fired}.values():
         print("KNOWN-FINDING: property=%s %s" % (prop, k["what_fails"]))
     discharged = sum(1 for o in ob_rows if o["status"] == "discharged")
     # ------------------------------------------------------------------ output
